@@ -37,6 +37,9 @@ enum Entry {
     /// this node's own repair cycle against a peer that holds the keyspace with one document
     /// (id 50): the poller's path creates the keyspace, fetches the state and the document
     Repair,
+    /// not a use of the keyspace: the moment the group's hourly tombstone sweep comes due
+    /// (virtual time moves one hour), as a schedulable step
+    SweepDue,
 }
 
 const PEER_DOC: u64 = 50;
@@ -86,6 +89,14 @@ fn run_one_distinct(paths: &[Entry], prefix: &[usize], fine: bool) -> (Run, Obs)
 /// hourly tombstone sweep (`keyspace_purge_task`, the real background task) has just come
 /// due when the tasks start, so its steps interleave with theirs.
 fn run_one_at(paths: &[Entry], prefix: &[usize], fine: bool, sweep: bool) -> (Run, Obs) {
+    run_one_mode(paths, prefix, fine, sweep as u8)
+}
+
+/// `mode` 0: fresh keyspace; 1: existing keyspace and the sweep due; 2: **fresh** keyspace and
+/// the sweep due (it then meets a keyspace that is registered but still empty, because its
+/// first user has the mailbox and has not sent its operation yet).
+fn run_one_mode(paths: &[Entry], prefix: &[usize], fine: bool, mode: u8) -> (Run, Obs) {
+    let sweep = mode == 1;
     let body = async {
         reset_seams();
         let _wall = Wall::start();
@@ -162,6 +173,10 @@ fn run_one_at(paths: &[Entry], prefix: &[usize], fine: bool, sweep: bool) -> (Ru
                             c.get_state(my_ks).await.map(|_| false).map_err(|e| e.to_string())
                         },
                         Entry::Repair => unreachable!(),
+                        Entry::SweepDue => {
+                            tokio::time::advance(std::time::Duration::from_secs(3600)).await;
+                            Ok(false)
+                        },
                     };
                     match res {
                         Ok(true) => acked.borrow_mut().push(id),
@@ -243,6 +258,17 @@ fn judge_sweep(paths: &[Entry], run: &Run, obs: &Obs, st: &mut Stats) {
         f.key = format!("{}/during-the-tombstone-sweep", f.key);
         f.replay.put("fine_grained", true);
         f.replay.put("sweep", true);
+    }
+}
+
+fn judge_fresh_sweep(paths: &[Entry], run: &Run, obs: &Obs, st: &mut Stats) {
+    let before = st.found.len();
+    judge(paths, run, obs, st);
+    st.inc("fresh_sweep_executions");
+    for f in st.found.iter_mut().skip(before) {
+        f.key = format!("{}/first-use-during-the-tombstone-sweep", f.key);
+        f.replay.put("fine_grained", true);
+        f.replay.put("sweep_mode", 2u64);
     }
 }
 
@@ -345,6 +371,36 @@ pub fn run(tier: Tier) -> i32 {
         summary.prefix_misfits += sum.prefix_misfits;
         summary.capped |= sum.capped;
     }
+    // a *fresh* keyspace whose first users start while the sweep is due: the sweep can meet a
+    // keyspace that is registered but still empty (added after the seeded change C18-g)
+    let fresh_sweep_scenarios: Vec<Vec<Entry>> = vec![
+        vec![Entry::Direct],
+        vec![Entry::Put],
+        vec![Entry::Rpc],
+        vec![Entry::Direct, Entry::GetState],
+        vec![Entry::Put, Entry::Rpc],
+        vec![Entry::Direct, Entry::Direct],
+        vec![Entry::Repair],
+        vec![Entry::Repair, Entry::GetState],
+    ];
+    let fresh_sweep_scenarios: Vec<Vec<Entry>> = fresh_sweep_scenarios
+        .into_iter()
+        .map(|mut p| {
+            p.push(Entry::SweepDue);
+            p
+        })
+        .collect();
+    for paths in &fresh_sweep_scenarios {
+        let cfg = ExploreCfg { max_deviations: Some(tier.pick(3, 4)), max_executions: 4_000_000, determinism_check_every: 53 };
+        let (st, sum) = e2::explore(&cfg, |p| run_one_mode(paths, p, true, 2), |st, run, obs| judge_fresh_sweep(paths, run, obs, st));
+        total.merge(st);
+        summary.executions += sum.executions;
+        summary.max_steps = summary.max_steps.max(sum.max_steps);
+        summary.deadlocks += sum.deadlocks;
+        summary.nondeterministic += sum.nondeterministic;
+        summary.prefix_misfits += sum.prefix_misfits;
+        summary.capped |= sum.capped;
+    }
     // concurrent first uses of two *different* fresh keyspaces (registering one must not lose
     // the other; added after the seeded change C18-f): pairs over all schedules, and
     // fine-grained with the deviation bound
@@ -383,6 +439,7 @@ pub fn run(tier: Tier) -> i32 {
     let schedules = total.distinct_count("schedules");
     let outcomes = total.distinct_count("outcomes");
     let sweep_execs = total.get("sweep_executions");
+    let fresh_sweep_execs = total.get("fresh_sweep_executions");
     let distinct_execs = total.get("distinct_name_executions");
     total.flush_into(&mut report);
     report.cover("states", schedules);
@@ -405,6 +462,9 @@ pub fn run(tier: Tier) -> i32 {
     report.guard(distinct_execs > 100, "the two-fresh-keyspaces scenarios did not run");
     report.cover("sweep_scenarios", sweep_scenarios.len());
     report.cover("sweep_executions", sweep_execs);
+    report.cover("fresh_keyspace_sweep_scenarios", fresh_sweep_scenarios.len());
+    report.cover("fresh_keyspace_sweep_executions", fresh_sweep_execs);
+    report.guard(fresh_sweep_execs > fresh_sweep_scenarios.len() as u64 * 3, "the tombstone sweep does not interleave with first uses");
     report.guard(sweep_execs > sweep_scenarios.len() as u64 * 3, "the tombstone sweep does not interleave with the tasks");
     report.cover("exhaustive", !summary.capped);
     report.guard(summary.nondeterministic == 0, "an execution did not reproduce when run twice with the same schedule");
@@ -426,6 +486,7 @@ pub fn replay(case: &J) -> i32 {
             "Rpc" => Some(Entry::Rpc),
             "GetState" => Some(Entry::GetState),
             "Repair" => Some(Entry::Repair),
+            "SweepDue" => Some(Entry::SweepDue),
             _ => None,
         })
         .collect();
@@ -439,8 +500,9 @@ pub fn replay(case: &J) -> i32 {
     let fine = case.get("fine_grained").and_then(|v| v.as_bool()).unwrap_or(false);
     let sweep = case.get("sweep").and_then(|v| v.as_bool()).unwrap_or(false);
     DISTINCT_NAMES.with(|d| d.set(case.get("distinct_names").and_then(|v| v.as_bool()).unwrap_or(false)));
-    let (run, obs) = run_one_at(&paths, &schedule, fine, sweep);
-    let (run2, obs2) = run_one_at(&paths, &schedule, fine, sweep);
+    let mode = case.get("sweep_mode").and_then(|v| v.as_u64()).unwrap_or(sweep as u64) as u8;
+    let (run, obs) = run_one_mode(&paths, &schedule, fine, mode);
+    let (run2, obs2) = run_one_mode(&paths, &schedule, fine, mode);
     if run != run2 || obs != obs2 {
         eprintln!("replay is not deterministic");
         return 2;
